@@ -35,13 +35,18 @@ type Solver struct {
 	timeout  int
 	dead     bool
 	HardTimeouts int
+	ModelTimeouts int
 	lastAssert *T
 	AllErrors []string
 }
 
 func NewSolver(tb *TB, timeoutMs int, logPath string) (*Solver, error) {
 	s := &Solver{tb: tb, timeout: timeoutMs}
-	s.bin = "z3"
+	// primary: z3 5.1.0 ("z3-new"); z3 4.8.12 hangs in get-value on some ite-heavy models
+	s.bin = "z3-new"
+	if b := os.Getenv("GSE_Z3"); b != "" {
+		s.bin = b
+	}
 	s.args = []string{"-in", fmt.Sprintf("-t:%d", timeoutMs), "-memory:3000"}
 	if logPath != "" {
 		f, err := os.Create(logPath)
@@ -288,46 +293,74 @@ func (s *Solver) Check() string {
 	return res
 }
 
-// Model returns values of the given variables after a sat answer.
+// Model returns values of the given variables after a sat answer; nil if the solver did not deliver
+// one in time (z3 4.8.12 occasionally hangs in get-value): the process is then killed and marked dead.
 func (s *Solver) Model(vars []*T) map[string]uint64 {
 	m := map[string]uint64{}
-	if len(vars) == 0 {
+	var names []string
+	for _, v := range vars {
+		if s.declared[v.name] {
+			names = append(names, v.name)
+		}
+	}
+	if len(names) == 0 {
 		return m
 	}
-	var sb strings.Builder
-	sb.WriteString("(get-value (")
-	for _, v := range vars {
-		if !s.declared[v.name] {
-			continue
-		}
-		sb.WriteString(v.name + " ")
-	}
-	sb.WriteString("))")
-	s.send(sb.String())
+	s.send("(get-value (" + strings.Join(names, " ") + "))")
 	s.in.Flush()
-	// read a balanced s-expression
-	depth := 0
-	var txt strings.Builder
-	started := false
-	for {
-		line, err := s.out.ReadString('\n')
-		if err != nil {
-			break
-		}
-		txt.WriteString(line)
-		for _, c := range line {
-			if c == '(' {
-				depth++
-				started = true
-			} else if c == ')' {
-				depth--
+	type res struct {
+		txt string
+		ok  bool
+	}
+	ch := make(chan res, 1)
+	out := s.out
+	go func() {
+		depth := 0
+		var txt strings.Builder
+		started := false
+		for {
+			line, err := out.ReadString('\n')
+			if err != nil {
+				ch <- res{"", false}
+				return
+			}
+			txt.WriteString(line)
+			for _, c := range line {
+				if c == '(' {
+					depth++
+					started = true
+				} else if c == ')' {
+					depth--
+				}
+			}
+			if started && depth <= 0 {
+				break
 			}
 		}
-		if started && depth <= 0 {
-			break
+		ch <- res{txt.String(), true}
+	}()
+	var r res
+	select {
+	case r = <-ch:
+	case <-time.After(10 * time.Second):
+		if s.cmd != nil && s.cmd.Process != nil {
+			s.cmd.Process.Kill()
 		}
+		<-ch
+		s.dead = true
+		s.ModelTimeouts++
+		return nil
 	}
-	toks := strings.Fields(strings.NewReplacer("(", " ", ")", " ").Replace(txt.String()))
+	if !r.ok {
+		s.dead = true
+		return nil
+	}
+	return parseModel(r.txt)
+}
+
+func parseModel(txt string) map[string]uint64 {
+	m := map[string]uint64{}
+	toks := strings.Fields(strings.NewReplacer("(", " ", ")", " ").Replace(txt))
 	for i := 0; i+1 < len(toks); i += 2 {
 		name, val := toks[i], toks[i+1]
 		switch {
@@ -344,6 +377,36 @@ func (s *Solver) Model(vars []*T) map[string]uint64 {
 		}
 	}
 	return m
+}
+
+// ModelOneShot asks z3 5.1.0 for a model of the given assertions (fallback when the primary hangs).
+func ModelOneShot(terms []*T, vars []*T, timeoutMs int) map[string]uint64 {
+	f, err := os.CreateTemp(os.Getenv("TMPDIR"), "gse_m_*.smt2")
+	if err != nil {
+		return nil
+	}
+	defer os.Remove(f.Name())
+	script := strings.Replace(Script(terms), "(set-logic ALL)", "(set-option :produce-models true)\n(set-logic ALL)", 1)
+	var names []string
+	for _, v := range vars {
+		if strings.Contains(script, "(declare-const "+v.name+" ") {
+			names = append(names, v.name)
+		}
+	}
+	if len(names) > 0 {
+		script += "(get-value (" + strings.Join(names, " ") + "))\n"
+	}
+	f.WriteString(script)
+	f.Close()
+	c := exec.Command("z3-new", fmt.Sprintf("-T:%d", timeoutMs/1000+1), f.Name())
+	c.SysProcAttr = &syscall.SysProcAttr{Pdeathsig: syscall.SIGKILL}
+	out, _ := c.Output()
+	txt := string(out)
+	i := strings.Index(txt, "sat")
+	if strings.HasPrefix(strings.TrimSpace(txt), "sat") && i >= 0 {
+		return parseModel(txt[i+3:])
+	}
+	return nil
 }
 
 // CheckWith checks satisfiability of the current assertions plus extra, without keeping extra.
@@ -410,7 +473,7 @@ func Portfolio(terms []*T, timeoutMs int) (string, string) {
 	f.Close()
 	secs := timeoutMs/1000 + 1
 	for _, cmd := range [][]string{
-		{"z3-new", fmt.Sprintf("-T:%d", secs), f.Name()},
+		{"z3", fmt.Sprintf("-T:%d", secs), f.Name()},
 		{"cvc5", fmt.Sprintf("--tlimit=%d", timeoutMs), f.Name()},
 	} {
 		c := exec.Command(cmd[0], cmd[1:]...)
